@@ -393,6 +393,12 @@ class Summarizer:
             return r
         if isinstance(n, (ast.Import, ast.ImportFrom, ast.Global, ast.Nonlocal)):
             return [(st, None)]
+        if isinstance(n, ast.With):
+            for it in n.items:
+                v = self.expr(it.context_expr, st)
+                if it.optional_vars is not None:
+                    self.assign(it.optional_vars, Sym(("with", vkey(v))), st, n.lineno)
+            return self.block(n.body, st)
         if isinstance(n, ast.Continue):
             return [(st, ("continue", None, n.lineno))]
         if isinstance(n, ast.Break):
